@@ -795,9 +795,9 @@ def mc_entryread(rep, wd, tier):
     if r["error"]:
         rep.spec_violation(r, "MC_EntryRead.cfg")
     # spec mutants: the checker must find each known-bad variant (non-vacuity of the invariants)
-    want = {"cipher_buf": "CipherSync", "no_mac": "MacAtEnd", "no_crc": "EofIntegrity", "zero_read_skips_crc": "EofIntegrity"}
+    want = {"cipher_buf": "CipherSync", "no_mac": "MacAtEnd", "no_crc": "EofIntegrity", "zero_read_skips_crc": "EofIntegrity", "no_drain_at_end": "MacAtEnd"}
     for bug, inv in want.items():
-        if tier == "quick" and bug not in ("cipher_buf", "zero_read_skips_crc"):
+        if tier == "quick" and bug not in ("cipher_buf", "zero_read_skips_crc", "no_drain_at_end"):
             continue
         r = vlib.tlc_mc("EntryRead.tla", "MC_EntryRead_%s.cfg" % bug, wd, timeout=300, tag="mc-er-" + bug)
         found = bool(r["error"]) and inv in r["error"]
